@@ -20,7 +20,14 @@
 #include "lifetrack.hpp"
 
 #include "values.h"
+#include "notify.h"           // mptio: mpt_input_reference_traits()
 #include "refcount_wrap.cpp"  // $VERIF_REPO/mpt++/refcount_wrap.cpp
+// the C++ array templates (item_array<T>::append) need a few members that live in libmpt++; the library itself is not
+// linked (it would replace mpt_meta_new / mpt_meta_buffer), so the repository's sources of exactly these members are compiled in
+#include "identifier.cpp"
+#include "array.cpp"
+#include "value.cpp"
+#include "type_traits_wrap.cpp"
 
 using namespace vp;
 using namespace mpt;
@@ -375,13 +382,12 @@ struct MetaWorld {
   }
 };
 
-static void run_metaref(Ctx &c) {
+static void run_metaref(Ctx &c, const type_traits *mt = mpt_meta_reference_traits(), const char *kind = "metaref") {
   MetaWorld w(c);
-  const type_traits *mt = mpt_meta_reference_traits();
   void *slot[4] = {0, 0, 0, 0};
   CObj<array> h[2];
   bool nontrivial = false;
-  c.label("metaref");
+  c.label(kind);
   auto check = [&](const char *op) {
     long cnt[MetaWorld::R + 1] = {0};
     for (void *p : slot) { int r = w.index(p); VP_CHECK(c, r >= 0, "harness", "unknown pointer in slot"); cnt[r]++; }
@@ -1154,8 +1160,119 @@ static void run_rawdata(Ctx &c) {
   if (nontrivial) c.nontrivial();
 }
 
+// ------------------------------------------------------------------ item_array<T>::append: hand-over of the caller's reference
+static void run_itemappend(Ctx &c) {
+  Viol viol;
+  g_viol = &viol;
+  std::map<const void *, CxxState> table;
+  g_cxx = &table;
+  g_refuse = false;
+  struct Guard { ~Guard() { g_cxx = 0; g_viol = 0; g_refuse = false; } } guard;
+  enum { R = 3 };
+  std::unique_ptr<SelfCounted> obj[R + 1];
+  long held[R + 1] = {0};
+  for (int r = 1; r <= R; r++) { obj[r].reset(new SelfCounted()); table[obj[r].get()] = CxxState{1, 0, r}; held[r] = 1; }
+  typedef item_array<SelfCounted> A;
+  A *h = new A[2];
+  std::vector<int> vals[2];
+  bool nontrivial = false;
+  c.label("itemappend");
+  auto index = [&](const void *p) { for (int r = 1; r <= R; r++) if (p == obj[r].get()) return r; return p ? -1 : 0; };
+  auto check = [&](const char *op) {
+    viol.raise(c, op);
+    long cnt[R + 1] = {0};
+    CBuf *first = 0;
+    for (int i = 0; i < 2; i++) {
+      CBuf *b = (CBuf *)h[i]._ref.instance();
+      size_t S = sizeof(item<SelfCounted>);
+      VP_CHECK(c, b && b->used <= b->size && b->used % S == 0, "harness", "bad buffer state");
+      std::vector<int> got;
+      for (size_t e = 0; e < b->used / S; e++) {
+        int r = index(((item<SelfCounted> *)(b->data() + e * S))->instance());
+        VP_CHECK(c, r >= 0, "unknown-reference", "after %s: item %zu of array %d holds an unknown pointer", op, e, i);
+        got.push_back(r);
+        if (b != first) cnt[r]++;
+      }
+      if (!first) first = b;
+      if (b->size && (CBuf *)h[1 - i]._ref.instance() == b) vals[i] = got;  // shared no-copy buffer: what the other handle did is C04's business
+      VP_CHECK(c, got == vals[i], "reference-value", "after %s: array %d holds %zu item(s), the model %zu (or other objects)", op, i, got.size(), vals[i].size());
+      if (c.verbose()) { std::string g; for (int v : got) g += std::to_string(v) + " "; c.logf("    a%d: [ %s]", i, g.c_str()); }
+    }
+    for (int r = 1; r <= R; r++) {
+      CxxState &s = table[obj[r].get()];
+      long expect = cnt[r] + held[r];
+      c.logf("    object #%d: %ld item(s) + %ld harness reference(s), counter %ld, destroyed %d", r, cnt[r], held[r], s.refs, s.destroyed);
+      VP_CHECK(c, s.refs == expect, s.refs > expect ? "not-released" : "released-early", "after %s: object #%d has reference count %ld but %ld item(s) and %ld harness reference(s) hold it", op, r, s.refs, cnt[r], held[r]);
+      VP_CHECK(c, (s.destroyed == 1) == (expect == 0), expect ? "released-early" : "not-released", "after %s: object #%d: %ld reference(s) held, destroyed %d time(s)", op, r, expect, s.destroyed);
+    }
+  };
+  check("start");
+  while (c.more()) {
+    int i = (int)c.pick(2);
+    size_t n = vals[i].size();
+    switch (c.weighted({10, 8, 5, 3, 3, 3})) {
+      case 0:
+      case 1: {  // append with a short name / a name around the identifier limit (65535 bytes including the terminator)
+        bool longname = c.weighted({1, 1}) == 1;
+        int r = (int)c.range(0, R);
+        if (r && !held[r]) r = 0;
+        size_t len = longname ? c.near({65534, 65535, 65536, 65533}, 65600) : c.range(0, 20);
+        std::string name(len, 'n');
+        if (r) obj[r]->addref();  // the reference handed to append(); the caller keeps it when append() refuses
+        item<SelfCounted> *it = h[i].append(r ? obj[r].get() : 0, name.c_str());
+        c.logf("a%d.append(object #%d, name of %zu characters) -> %s  (length %zu)", i, r, len, it ? "ok" : "refused", n);
+        if (it) { vals[i].push_back(r); c.label(longname ? "itemappend:long-name-accepted" : "itemappend:append"); }
+        else {
+          if (r) { obj[r]->unref(); nontrivial = true; }  // like layout::graph::add_axis, layout::bind
+          c.label("itemappend:refused");
+        }
+        check("append");
+        break;
+      }
+      case 2: {  // resize
+        long len = (long)c.range(0, n + 1);
+        bool ok = h[i].resize(len);
+        c.logf("a%d.resize(%ld) -> %d  (length %zu)", i, len, ok, n);
+        if (ok) { if ((size_t)len < n) nontrivial = true; vals[i].resize(len, 0); }
+        check("resize");
+        break;
+      }
+      case 3: {  // share
+        c.logf("a%d = a%d", i, 1 - i);
+        h[i] = h[1 - i];
+        vals[i] = vals[1 - i];
+        check("assign");
+        break;
+      }
+      case 4: {  // release
+        c.logf("a%d = empty array", i);
+        if (n) nontrivial = true;
+        h[i] = A();
+        vals[i].clear();
+        check("release");
+        break;
+      }
+      default: {  // harness drops a reference of its own
+        int r = (int)c.range(1, R);
+        if (!held[r]) break;
+        c.logf("harness drops its reference on object #%d", r);
+        obj[r]->unref();
+        held[r]--;
+        check("harness reference dropped");
+        break;
+      }
+    }
+  }
+  for (int i = 0; i < 2; i++) { h[i] = A(); vals[i].clear(); }
+  for (int r = 1; r <= R; r++) while (held[r] > 0) { obj[r]->unref(); held[r]--; }
+  check("final release");
+  delete[] h;
+  if (nontrivial) c.nontrivial();
+}
+
 static void run(Ctx &c) {
-  static const uint8_t map[16] = {0, 1, 1, 2, 2, 3, 3, 4, 4, 5, 5, 6, 6, 7, 7, 8};
+  // slots 8 and 10 (second slots of the two cxxref kinds, used by no corpus file) now select the item_array and input reference kinds
+  static const uint8_t map[16] = {0, 1, 1, 2, 2, 3, 3, 4, 9, 5, 10, 6, 6, 7, 7, 8};
   switch (map[c.u8() % 16]) {
     case 0: run_counter(c); break;
     case 1: run_buffer(c); break;
@@ -1165,6 +1282,8 @@ static void run(Ctx &c) {
     case 5: run_cxxref<Counted, true>(c); break;
     case 6: run_meta(c); break;
     case 7: run_reply(c); break;
+    case 9: run_itemappend(c); break;
+    case 10: run_metaref(c, mpt_input_reference_traits(), "inputref"); break;
     default: run_rawdata(c); break;
   }
 }
